@@ -131,6 +131,7 @@ pub fn run_case(line: &str) -> String {
         "bs" => crate::ports::output::bscen::run(&w[1..]),
         "tsc" => crate::tsetscen::run(&w[1..]),
         "inj" => run_inj(&w[1..]),
+        "sqf" => run_sqf(&w[1..]),
         "aes" => crate::aescen::run(&w[1..]),
         "slt" => crate::slotscen::run(&w[1..]),
         "dws" => crate::dwscen::run(&w[1..]),
@@ -179,4 +180,85 @@ fn run_inj(w: &[&str]) -> String {
         4 => go::<4>(&w[1..]),
         _ => go::<128>(&w[1..]),
     }
+}
+
+
+/// The verbatim util/seq_futures.rs over scripted sub-futures: `sqf k0 k1 ...` - sub-future i answers Pending
+/// k_i times (waking its waker each time), then Ready; a poll after Ready is recorded as a fault.  The SeqFuture
+/// is polled until it is Ready, at most sum(k) + 1 times.  Output:
+/// "<ready 0|1> <ready before the last allowed poll 0|1> <sub-polls i.i.i> <fault 0|1> <out-of-bounds panic 0|1>".
+fn run_sqf(w: &[&str]) -> String {
+    use crate::util::seq_futures::SeqFuture;
+    use std::cell::{Cell, RefCell};
+    use std::future::Future;
+    use std::pin::Pin;
+    use std::rc::Rc;
+    use std::sync::Arc;
+    use std::task::{Context, Poll, Wake, Waker};
+    struct Nop;
+    impl Wake for Nop {
+        fn wake(self: Arc<Self>) {}
+    }
+    struct Scripted {
+        id: usize,
+        remaining: usize,
+        done: bool,
+        trace: Rc<RefCell<Vec<usize>>>,
+        bad: Rc<Cell<bool>>,
+    }
+    impl Future for Scripted {
+        type Output = ();
+        fn poll(mut self: Pin<&mut Self>, cx: &mut Context<'_>) -> Poll<()> {
+            self.trace.borrow_mut().push(self.id);
+            if self.done {
+                self.bad.set(true);
+                return Poll::Ready(());
+            }
+            if self.remaining > 0 {
+                self.remaining -= 1;
+                cx.waker().wake_by_ref();
+                Poll::Pending
+            } else {
+                self.done = true;
+                Poll::Ready(())
+            }
+        }
+    }
+    let ks: Vec<usize> = w.iter().map(|x| x.parse().unwrap()).collect();
+    let total: usize = ks.iter().sum();
+    let trace = Rc::new(RefCell::new(Vec::new()));
+    let bad = Rc::new(Cell::new(false));
+    let mut f: SeqFuture<Scripted> = SeqFuture::new();
+    for (i, k) in ks.iter().enumerate() {
+        f.push(Scripted { id: i, remaining: *k, done: false, trace: trace.clone(), bad: bad.clone() });
+    }
+    let waker = Waker::from(Arc::new(Nop));
+    let mut cx = Context::from_waker(&waker);
+    let (mut ready_at, mut oob) = (None, false);
+    let hook = std::panic::take_hook();
+    std::panic::set_hook(Box::new(|_| {}));
+    for n in 1..=total + 1 {
+        let r = std::panic::catch_unwind(std::panic::AssertUnwindSafe(|| Pin::new(&mut f).poll(&mut cx)));
+        match r {
+            Ok(Poll::Ready(())) => {
+                ready_at = Some(n);
+                break;
+            }
+            Ok(Poll::Pending) => {}
+            Err(_) => {
+                oob = true;
+                break;
+            }
+        }
+    }
+    std::panic::set_hook(hook);
+    let tr: Vec<String> = trace.borrow().iter().map(|x| x.to_string()).collect();
+    format!(
+        "{} {} {} {} {}",
+        ready_at.is_some() as u8,
+        matches!(ready_at, Some(n) if n <= total) as u8,
+        tr.join("."),
+        bad.get() as u8,
+        oob as u8
+    )
 }
